@@ -189,8 +189,8 @@ def first_frame(detail):
     import re
     m = re.search(r'(COLLECTIVE-MISMATCH|DEADLOCK[^:]*|SCHED-DIVERGENCE|NONDETERMINISM-NOT-OWNED[^|]*|LIBRARY-CALLED-MPI_Abort)', detail)
     if m:
-        ops = re.findall(r'r\d+=([A-Z_0-9]+)\(([A-Za-z_0-9]*)', detail)
-        return m.group(1) + ':' + '/'.join('%s.%s' % (a, b) for a, b in ops)
+        ops = re.findall(r'r\d+=([A-Z_0-9]+)\(([A-Za-z_]*)', detail)
+        return m.group(1) + ':' + '+'.join(sorted(set('%s.%s' % (a, b) if b else a for a, b in ops)))
     m = re.search(r'/repo/src/[^ :]+:\d+', detail)
     if m: return m.group(0)
     m = re.search(r'CRASH sig=\d+', detail)
